@@ -220,6 +220,9 @@ func enumShapeRaw(j int) *gen.Cfg {
 		a.Tags = []gen.Tag{{Name: "t"}}
 		c.Services = []gen.Svc{a, node("b", sc[1]), node("c", sc[2])}
 		c.Decorators = []gen.Dec{{Tag: "t", Fn: fx + ".Decorate", Args: []gen.Arg{ref("b")}}, {Tag: "t", Fn: fx + ".Decorate", Args: []gen.Arg{ref("c")}}}
+	case 11: // a decorator on the tag "*", which no service can carry: it is never applied, a depends on nothing
+		c.Services = []gen.Svc{node("a", sc[0]), node("b", sc[1], ref("c")), node("c", sc[2])}
+		c.Decorators = []gen.Dec{{Tag: "*", Fn: fx + ".Decorate", Args: []gen.Arg{ref("b")}}}
 	case 8: // two calls: the first injects b, the second c
 		a := node("a", sc[0])
 		a.Calls = []gen.Call{{Method: "SetA", Args: []gen.Arg{ref("b")}}, {Method: "SetB", Args: []gen.Arg{ref("c")}}}
@@ -254,7 +257,7 @@ func enumShapeRaw(j int) *gen.Cfg {
 const EnumFamily = NShapes * 64
 
 // NShapes is the number of shapes of the family.
-const NShapes = 11
+const NShapes = 12
 
 // enumCfg15 is the small configuration whose histories C15 enumerates exhaustively.
 func enumCfg15() *gen.Cfg {
